@@ -10,7 +10,7 @@
    same operations on ONE byte string.  Every theorem quantifies over ALL fragment
    lists: any number of fragments, any lengths, empty fragments anywhere. *)
 From MptV Require Import Base.Mem C17.MessageModel C17.MessageSpec C17.MessageProofs
-  C17.MessageTok C17.MessageCopy C17.MessageArgv C17.MessageRefine.
+  C17.MessageTok C17.MessageCopy C17.MessageArgv C17.MessageFail C17.MessageRefine.
 
 (* mpt_message_read: count and bytes are those of the flat read, the cursor left
    behind denotes the flat suffix [skipn n], and it is normalised (an empty current
@@ -51,28 +51,22 @@ Theorem C17_memtok_flat :
   forall data tok com esc, m_memtok data tok com esc = flat_memtok (concat data) tok com esc.
 Proof. exact memtok_flat. Qed.
 
-(* mpt_memcpy.  Full statement (FALSE of the code, see C17_memcpy_noparts_refuted):
-     forall len src dest, exists o, m_memcpy len src dest = Some (fst (flat_memcpy ..), o) /\ ...
-   The code returns 0 whenever a part COUNT is zero, before looking at len; a zero
-   count and one empty part denote the same flat string but give 0 resp. -1/-2.
-   Guarded statement: both counts non-zero.  Then: same return value (copied size,
-   -1 source too short, -2 target too short), the target parts hold the flat
-   result, their lengths are unchanged, and the loop fuel suffices (Some). *)
-Theorem C17_memcpy_flat_partial :
-  forall len src dest, src <> [] -> dest <> [] ->
+(* mpt_memcpy, EVERY pair of fragment lists (a zero part count included): same return
+   value (copied size, -1 source too short, -2 target too short), the target parts
+   hold the flat result, their lengths are unchanged, and the loop fuel suffices
+   (Some).  Holds of the code with docs/C17_memcpy_noparts.diff (size check before the
+   "no part" exit); without it a zero part COUNT returned 0 before len was looked at,
+   so "no part" and "one empty part" (the same flat string) gave 0 resp. -1/-2. *)
+Theorem C17_memcpy_flat :
+  forall len src dest,
     exists o, m_memcpy len src dest = Some (fst (flat_memcpy len (concat src) (concat dest)), o)
               /\ concat o = snd (flat_memcpy len (concat src) (concat dest))
               /\ map (@length byte) o = map (@length byte) dest.
 Proof. exact memcpy_flat. Qed.
 
 Theorem C17_memcpy_noparts :
-  forall len src dest, src = [] \/ dest = [] -> m_memcpy len src dest = Some (0%Z, dest).
+  forall len src dest, src = [] \/ dest = [] -> (len <= 0)%Z -> m_memcpy len src dest = Some (0%Z, dest).
 Proof. exact memcpy_noparts. Qed.
-
-Theorem C17_memcpy_noparts_refuted :
-  exists len src dest o, m_memcpy len src dest = Some o
-    /\ fst o <> fst (flat_memcpy len (concat src) (concat dest)).
-Proof. exact memcpy_noparts_refuted. Qed.
 
 (* mpt_message_argv, every separator byte: same argument length (or MissingData),
    and the message left behind (leading white space consumed) denotes the flat text left *)
@@ -105,16 +99,81 @@ Theorem C17_array_message_flat :
   forall m sep, m_array_message m sep = Some (Ok (flat_array_message (concat (frags m)) sep)).
 Proof. exact array_message_flat. Qed.
 
+(* mpt_message_append onto an array that refuses (typed buffer: lim = Some 0; the
+   (lim+1)-th allocation fails: Some lim; never: None).  All of the flat text or
+   nothing: on refusal the array holds exactly what it held before (`_used = olen`),
+   whatever was appended from earlier fragments.  [count_ne] = number of non-empty
+   fragments = number of mpt_array_append calls. *)
+Theorem C17_append_refusing_flat :
+  forall arr lim m,
+    m_append_lim arr lim m
+    = if lim_ge lim (count_ne (frags m)) then (true, flat_append arr (concat (frags m))) else (false, arr).
+Proof. exact append_lim_flat. Qed.
+
+Theorem C17_append_refusing_none : forall arr m, m_append_lim arr None m = (true, m_append arr m).
+Proof. exact append_lim_none. Qed.
+
+(* an empty text never asks the array, a non-empty one always does: whether a typed
+   array refuses depends on the flat text alone *)
+Theorem C17_append_asks_iff_text : forall fs, count_ne fs = 0 <-> concat fs = [].
+Proof. exact count_ne_concat. Qed.
+
+(* mpt_array_message with an array that refuses after lim calls (reservation,
+   arguments, separators): BadOperation / MissingBuffer with the caller's array
+   untouched, at the same call as on the flat text *)
+Theorem C17_array_message_refusing_flat :
+  forall m sep lim pre,
+    amsgl_out (m_array_message_lim m sep lim pre) = flat_array_message_lim (concat (frags m)) sep lim pre.
+Proof. exact array_message_lim_flat. Qed.
+
+Theorem C17_array_message_refusing_none :
+  forall s sep pre,
+    flat_array_message_lim s sep None pre = OArr (fst (flat_array_message s sep)) (snd (flat_array_message s sep)).
+Proof. exact array_message_lim_none. Qed.
+
+(* the reservation of message length + 1 bytes made before the loop suffices: without an
+   injected failure the appends inside the loop of mpt_array_message never have to grow
+   the buffer, their refusal branches are dead *)
+Theorem C17_array_message_fits :
+  forall s sep, length (snd (flat_array_message s sep)) <= length s + 1.
+Proof. exact array_message_fits. Qed.
+
+(* mpt_memtok leaves its scan loop only outside a quoted region: the "escaped sequence
+   unfinished" exit behind the loop is dead *)
+Theorem C17_memtok_found_unquoted :
+  forall tok com esc s c, tok_step tok com esc s c = TkFound -> tk_match s = 0%N.
+Proof. exact tok_step_found_unquoted. Qed.
+
+(* the "add the lengths of the preceding parts" loops (size_t sum compared with SSIZE_MAX
+   after every addition): with part lengths that are object sizes the sum never wraps
+   unseen - EOVERFLOW exactly when the position is not representable *)
+Theorem C17_position_sum_checked :
+  forall lens pos, (pos <= ssize_max)%N -> Forall (fun l => (l <= ssize_max)%N) lens ->
+    pos_acc pos lens = if (pos + sumN lens <=? ssize_max)%N then Some (pos + sumN lens)%N else None.
+Proof. exact pos_acc_spec. Qed.
+
+(* mpt_memrchr / mpt_memrfcn / mpt_memrstr over  <big bytes> ++ message  when the byte
+   is found in the message: the flat position big + p, or EOVERFLOW *)
+Theorem C17_rbig_flat :
+  forall big data k, (big <= ssize_max)%N -> (N.of_nat (length (concat data)) <= ssize_max)%N ->
+    m_rbig big data k = flat_rbig big (concat data) k.
+Proof. exact rbig_flat. Qed.
+
 (* Any history of operations (the cursor of one is the input of the next): outputs
    and the text denoted by the cursor after every step are those of the flat run,
-   and no step faults or runs out of fuel. *)
+   and no step faults or runs out of fuel.  [ops_ok]: rings handed to message_get are
+   well formed; OpRBig is run with big and the message length at most SSIZE_MAX. *)
 Theorem C17_history_flat :
-  forall ops F, Forall op_ok ops -> map proj (mrun F ops) = srun F (abs F) ops.
+  forall ops F, ops_ok F ops -> map proj (mrun F ops) = srun F (abs F) ops.
 Proof. exact run_flat. Qed.
 
 Theorem C17_history_no_fault :
-  forall ops F, Forall op_ok ops -> Forall (fun r => bad_out (fst r) = false) (mrun F ops).
+  forall ops F, ops_ok F ops -> Forall (fun r => bad_out (fst r) = false) (mrun F ops).
 Proof. exact run_no_fault. Qed.
+
+(* histories without OpRBig need only the ring condition, whatever the message *)
+Theorem C17_history_side_conditions : forall ops F, Forall op_ok0 ops -> ops_ok F ops.
+Proof. exact ops_ok_of_forall. Qed.
 
 (* ---- non-vacuity: concrete fragmentations with empty fragments; the statements
    say something about them ---- *)
@@ -167,6 +226,40 @@ Example C17_ex_history :
      ORead 4 (Some [98; 39; 32; 99]%N); ONat 0].
 Proof. vm_compute. reflexivity. Qed.
 
+(* the second allocation fails: the first fragment is taken back *)
+Example C17_ex_append_refused :
+  m_append_lim [81; 81]%N (Some 1) (mkmsg [65]%N [[]; [66]%N; [67]%N]) = (false, [81; 81]%N)
+  /\ m_append_lim [81; 81]%N (Some 3) (mkmsg [65]%N [[]; [66]%N; [67]%N]) = (true, [81; 81; 65; 66; 67]%N)
+  /\ m_append_lim [81; 81]%N (Some 0) (mkmsg [] [[]; []]) = (true, [81; 81]%N).
+Proof. vm_compute. repeat split. Qed.
+
+Example C17_ex_array_message_refused :
+  amsgl_out (m_array_message_lim (mkmsg [65; 32]%N [[66]%N; [32; 67]%N]) 32%N (Some 4) [90; 90]%N)
+  = OArrE MissingBuffer [90; 90]%N
+  /\ amsgl_out (m_array_message_lim (mkmsg [65; 32]%N [[66]%N; [32; 67]%N]) 32%N (Some 7) [90; 90]%N)
+  = OArr 3 [65; 0; 66; 0; 67; 0]%N.
+Proof. vm_compute. split; reflexivity. Qed.
+
+Example C17_ex_memcpy_noparts :
+  m_memcpy 1 [] [[9]%N] = Some ((-1)%Z, [[9]%N]) /\ m_memcpy 1 [[]] [[9]%N] = Some ((-1)%Z, [[9]%N])
+  /\ m_memcpy 1 [[65]%N] [] = Some ((-2)%Z, []).
+Proof. vm_compute. repeat split. Qed.
+
+(* byte 'A' found at offset 0 of the third part, 2 bytes and the big part before it *)
+Example C17_ex_rbig :
+  m_rbig 9223372036854775805 [[65]%N; [66]%N; [65]%N] (RChr 65%N) = RAt 9223372036854775807
+  /\ m_rbig 9223372036854775806 [[65]%N; [66]%N; [65]%N] (RChr 65%N) = ROverflow
+  /\ m_rbig 9223372036854775806 [[65]%N; [66]%N; [65]%N] (RFcn 1) = ROverflow.
+Proof. vm_compute. repeat split. Qed.
+
+Example C17_ex_history_refusals :
+  ops_ok [[65; 32]%N; [66]%N] [OpAppL [81]%N (Some 1); OpRead 1 true; OpAmsgL 32%N (Some 2) [90]%N;
+                                OpRBig 9223372036854775807 (RChr 66%N); OpNullArg 0]
+  /\ map fst (mrun [[65; 32]%N; [66]%N] [OpAppL [81]%N (Some 1); OpRead 1 true; OpAmsgL 32%N (Some 2) [90]%N;
+                                          OpRBig 9223372036854775807 (RChr 66%N); OpNullArg 0])
+     = [OArrE MissingBuffer [81]%N; ORead 1 (Some [65]%N); OArrE MissingBuffer [90]%N; ORBig ROverflow; OPosE].
+Proof. split; [cbn; unfold ssize_max; repeat split; lia|vm_compute; reflexivity]. Qed.
+
 Print Assumptions C17_read_flat.
 Print Assumptions C17_length_flat.
 Print Assumptions C17_memchr_flat.
@@ -176,12 +269,21 @@ Print Assumptions C17_memrfcn_flat.
 Print Assumptions C17_memstr_flat.
 Print Assumptions C17_memrstr_flat.
 Print Assumptions C17_memtok_flat.
-Print Assumptions C17_memcpy_flat_partial.
+Print Assumptions C17_memcpy_flat.
 Print Assumptions C17_memcpy_noparts.
-Print Assumptions C17_memcpy_noparts_refuted.
 Print Assumptions C17_argv_flat.
 Print Assumptions C17_append_flat.
 Print Assumptions C17_get_flat.
 Print Assumptions C17_array_message_flat.
+Print Assumptions C17_append_refusing_flat.
+Print Assumptions C17_append_refusing_none.
+Print Assumptions C17_append_asks_iff_text.
+Print Assumptions C17_array_message_refusing_flat.
+Print Assumptions C17_array_message_refusing_none.
+Print Assumptions C17_array_message_fits.
+Print Assumptions C17_memtok_found_unquoted.
+Print Assumptions C17_position_sum_checked.
+Print Assumptions C17_rbig_flat.
 Print Assumptions C17_history_flat.
 Print Assumptions C17_history_no_fault.
+Print Assumptions C17_history_side_conditions.
